@@ -17,7 +17,7 @@ use vpmodel::spec::ChainSpec;
 pub const DEF: PropDef = PropDef {
     id: "C02",
     level: "exploration",
-    rule: "part 1 (bounded-exhaustive): for every tip height T<=Tmax, every accepted option combination (none; -s in 0..=T; -e in 1..=T+3; both with s<e) x 5 callbacks x 2 coins on a fixed generated chain; part 2 (random): chains up to 60 blocks in generated physical layouts (1..60 blk files, any order), base heights up to 10^7 (segment chains), random (s,e). Oracle: callback output == reference model applied to exactly heights s..=min(e,T); file names carry s and min(e,T); 'Processed blocks up to height' == min(e,T); for csvdump/opreturn the range output equals the row slice of the whole-chain output. Non-trivial = a range option is given and at least one block of the chain is excluded; distinct by (T, base, s, e, callback, coin).",
+    rule: "part 1 (bounded-exhaustive): for every tip height T<=Tmax, every accepted option combination (none; -s in 0..=T; -e in 1..=T+3; both with s<e) x 5 callbacks x 2 coins on a fixed generated chain, plus the csvdump runs again with --verify on a chain that starts at the real genesis block; part 2 (random): chains up to 60 blocks in generated physical layouts (1..60 blk files, any order), base heights up to 10^7 (segment chains), random (s,e). Oracle: callback output == reference model applied to exactly heights s..=min(e,T); file names carry s and min(e,T); 'Processed blocks up to height' == min(e,T); for csvdump/opreturn the range output equals the row slice of the whole-chain output. Non-trivial = a range option is given and at least one block of the chain is excluded; distinct by (T, base, s, e, callback, coin).",
     assumptions: &["options the CLI accepts: s<e when both are given; s <= T (a start beyond the tip is outside the statement)", "for chains whose first indexed height is > 0 a --start at or above that height is given"],
     run,
     replay,
@@ -32,6 +32,9 @@ pub struct Case {
     /// physical layout (None = canonical single file)
     #[serde(default)]
     pub layout: Option<vpmodel::layout::LayoutSpec>,
+    /// run with --verify (only where a consistent chain can pass it: real genesis at height 0, or --start above the first indexed height)
+    #[serde(default)]
+    pub verify: bool,
 }
 
 fn chain_cfg(tier: Tier) -> gen::ChainCfg {
@@ -75,6 +78,7 @@ pub fn check(c: &Case) -> Verdict {
     let mut o = RunOpts::new(built.coin, c.cb);
     o.start = start;
     o.end = c.end;
+    o.verify = c.verify && ((base == 0 && c.chain.real_genesis && vpmodel::chain::genesis_block(built.coin).is_some()) || s > base);
     let out = infra!(w.run(&o));
     if let Some(v) = timed_out_is_infra(&out) {
         return v;
@@ -133,6 +137,9 @@ pub fn exhaustive_cases(seed: u64, tmax: u64, tier: Tier) -> Vec<Case> {
     for t in 0..=tmax {
         for coin in [Coin::Bitcoin, Coin::Dogecoin] {
             let chain = fixed_chain(seed, coin, (t + 1) as usize, tier);
+            // same tip height with the coin's real genesis block at height 0, for the --verify variants
+            let mut vchain = fixed_chain(seed ^ 0x5eed, coin, t as usize, tier);
+            vchain.real_genesis = true;
             let mut opts: Vec<(Option<u64>, Option<u64>)> = vec![(None, None)];
             for s in 0..=t {
                 opts.push((Some(s), None));
@@ -147,7 +154,10 @@ pub fn exhaustive_cases(seed: u64, tmax: u64, tier: Tier) -> Vec<Case> {
             }
             for (s, e) in opts {
                 for cb in ALL_CALLBACKS {
-                    v.push(Case { chain: chain.clone(), start: s, end: e, cb, layout: None });
+                    v.push(Case { chain: chain.clone(), start: s, end: e, cb, layout: None, verify: false });
+                    if cb == Callback::CsvDump && coin == Coin::Bitcoin {
+                        v.push(Case { chain: vchain.clone(), start: s, end: e, cb, layout: None, verify: true });
+                    }
                 }
             }
         }
@@ -159,8 +169,11 @@ pub fn random_strategy(tier: Tier) -> BS<Case> {
     let mut cfg = chain_cfg(tier);
     cfg.nblocks = prop_oneof![6 => 1usize..12, 2 => 12usize..30, 1 => 30usize..=60].boxed();
     cfg.base = gen::wide_base();
-    (gen::chain(&cfg), any::<u16>(), any::<u16>(), 0u8..4, 0u8..6, proptest::sample::select(ALL_CALLBACKS.to_vec()), proptest::option::weighted(0.6, vpmodel::layout::layout(tier, false, false)))
-        .prop_map(|(chain, a, b, mode, above, cb, layout)| {
+    (gen::chain(&cfg), any::<u16>(), any::<u16>(), 0u8..4, 0u8..6, proptest::sample::select(ALL_CALLBACKS.to_vec()), proptest::option::weighted(0.6, vpmodel::layout::layout(tier, false, false)), proptest::bool::weighted(0.3))
+        .prop_map(|(mut chain, a, b, mode, above, cb, layout, verify)| {
+            if verify && chain.base == 0 {
+                chain.real_genesis = true;
+            }
             let n = chain.blocks.len() as u64;
             let (base, tip) = (chain.base, chain.base + n - 1);
             // s in base..=tip ; e in s+1..=tip+above
@@ -173,7 +186,7 @@ pub fn random_strategy(tier: Tier) -> BS<Case> {
                 2 => (None, Some(e.max(base + 1))),
                 _ => (Some(s), Some(e)),
             };
-            Case { chain, start, end, cb, layout }
+            Case { chain, start, end, cb, layout, verify }
         })
         .boxed()
 }
